@@ -1,4 +1,5 @@
 import DarkluaModel.Rules.EmptyDo
+import DarkluaModel.Shared.VisitorSound
 import DarkluaModel.Rules.UnusedWhile
 import DarkluaModel.Rules.FilterEarlyReturn
 import DarkluaModel.Rules.MethodDef
@@ -39,7 +40,7 @@ theorem refines_trans {a b c : Block} (h1 : Refines a b) (h2 : Refines b c) : Re
 
 /-- "any selection of the rules in any order": if every rule of a list refines on every block,
 so does their composition (any subset, any order, repetitions allowed) -/
-theorem pipeline_refines (rules : List (Block → Block)) (h : ∀ r ∈ rules, ∀ b, Refines b (r b)) (b : Block) :
+theorem pipeline_refines_local (rules : List (Block → Block)) (h : ∀ r ∈ rules, ∀ b, Refines b (r b)) (b : Block) :
     Refines b (rules.foldl (fun acc r => r acc) b) := by
   induction rules generalizing b with
   | nil => exact refines_refl b
@@ -48,7 +49,7 @@ theorem pipeline_refines (rules : List (Block → Block)) (h : ∀ r ∈ rules, 
     exact refines_trans (h r (by simp) b) (ih (fun r' hr' => h r' (by simp [hr'])) (r b))
 
 example : Refines (.mk [] none) ([id, id].foldl (fun acc r => r acc) (.mk [] none)) :=
-  pipeline_refines [id, id] (fun r hr b => by simp at hr; subst hr; exact refines_refl b) _
+  pipeline_refines_local [id, id] (fun r hr b => by simp at hr; subst hr; exact refines_refl b) _
 
 /-! ### remove_empty_do -/
 
@@ -66,6 +67,40 @@ example :
       (.mk [.doBlock (.mk [] none), .callStmt (.call (.var "f") none .tuple [])] none) false).1
       = .mk [.callStmt (.call (.var "f") none .tuple [])] none := by
   simp [Rules.EmptyDo.processBlock, Rules.EmptyDo.filterStmts, Rules.EmptyDo.blockIsEmpty]
+
+
+/-- **Whole rule, every program**: running `remove_empty_do` (all its visitor passes) on ANY block gives
+a program with the same observable outcome — returned values, raised error, external-call trace — at
+every call level, for every number system, external-call oracle and set of external functions.
+(Lifted from the hook lemma by the generic visitor theorem `Shared/VisitorSound.lean`.) -/
+theorem rule_refines_remove_empty_do (b : Block) {N : NumOps} (ρ : ExtOracle N) (n : Nat)
+    (externs : List String) :
+    runProgram ρ n externs (Rules.EmptyDo.apply b) = runProgram ρ n externs b :=
+  Rules.EmptyDo.apply_refines b ρ n externs
+
+/-- `pipeline_refines`: any list of block transformations that each preserve the observable outcome
+of every program (any selection of rules, any order, repetitions allowed) preserves it as a whole. -/
+theorem pipeline_refines (rules : List (Block → Block))
+    (h : ∀ r ∈ rules, ∀ (b : Block) {N : NumOps} (ρ : ExtOracle N) (n : Nat) (externs : List String),
+      runProgram ρ n externs (r b) = runProgram ρ n externs b)
+    (b : Block) {N : NumOps} (ρ : ExtOracle N) (n : Nat) (externs : List String) :
+    runProgram ρ n externs (rules.foldl (fun acc r => r acc) b) = runProgram ρ n externs b := by
+  induction rules generalizing b with
+  | nil => rfl
+  | cons r rest ih =>
+    simp only [List.foldl_cons]
+    rw [ih (fun r' hr' => h r' (List.mem_cons_of_mem _ hr')) (r b)]
+    exact h r (List.mem_cons_self ..) b ρ n externs
+
+-- non-vacuity: the pipeline [remove_empty_do, remove_empty_do] satisfies the hypothesis
+example (b : Block) {N : NumOps} (ρ : ExtOracle N) (n : Nat) (externs : List String) :
+    runProgram ρ n externs ([Rules.EmptyDo.apply, Rules.EmptyDo.apply].foldl (fun acc r => r acc) b)
+      = runProgram ρ n externs b :=
+  pipeline_refines _ (by
+    intro r hr b N ρ n externs
+    simp at hr
+    subst hr
+    exact rule_refines_remove_empty_do b ρ n externs) b ρ n externs
 
 /-! ### filter_after_early_return -/
 
